@@ -40,6 +40,8 @@ def parse_opts(s):
             opts['skip'] += w[len('skip='):].split(',')
         elif w.startswith('opaque='):
             opts['opaque_macros'] += w[len('opaque='):].split(',')
+        elif w == 'R29map':
+            opts['rules'].append('R29map')
         elif re.match(r'^R\d+$', w):
             opts['rules'].append(w)
         elif w.startswith('drain='):
